@@ -58,7 +58,8 @@ void h_header(void) {
  * in_k is the symbolic stream position; the branch below selects the runs in which it is the position where the loader
  * looks for the ghost channel -- the saver's contract then says which byte was emitted there. */
 void l_roundtrip(void) {
-  size_t in_x, in_y, in_c, in_k, in_w, in_h;
+  uint8_t in_x, in_y, in_c, in_w, in_h; /* narrow, see ppm_load.c */
+  size_t in_k;
   uint8_t in_v;
   verif_exc = 0;
   g_wpos = 0; g_wcalls = 0; g_wseen = 0; g_fpos = 0; g_reads = 0;
@@ -66,12 +67,12 @@ void l_roundtrip(void) {
   Image* img = malloc(sizeof(Image));
   if (!img) return;
   img->width = in_w; img->height = in_h; img->has_alpha = C06_ALPHA; img->channel_width = 8; img->max_value = 0xFF;
-  img->data.raw = malloc(in_w * in_h * C06_PB(C06_ALPHA));
+  img->data.raw = malloc((size_t)in_w * in_h * C06_PB(C06_ALPHA));
   if (!img->data.raw) return;
   g_w = in_w; g_h = in_h;
   g_x = in_x; g_y = in_y; g_c = in_c;
   g_fr = C06_FROW(g_y, in_h, 0);
-  g_oidx = (g_y * in_w + g_x) * C06_PB(C06_ALPHA) + g_c;
+  g_oidx = (g_y * (size_t)in_w + g_x) * C06_PB(C06_ALPHA) + g_c;
   g_pv = ((const uint8_t*)img->data.raw)[g_oidx];
   g_wk = in_k;
   Image_save_bmp(img);
@@ -105,7 +106,7 @@ void l_roundtrip(void) {
   if (verif_exc == 0) {
     __CPROVER_assert((size_t)lw == in_w && (size_t)lh == in_h && *has_alpha_out == (bool)C06_ALPHA, "dimensions and alpha flag reproduced");
     __CPROVER_assert(g_h_data_offset + g_fpos == g_wpos, "the loader consumes exactly the emitted pixel array");
-    __CPROVER_assert(((const uint8_t*)*new_data)[(g_y * in_w + g_x) * C06_PB(C06_ALPHA) + g_c] == g_pv, "channel c of pixel (x,y) reproduced");
+    __CPROVER_assert(((const uint8_t*)*new_data)[(g_y * (size_t)in_w + g_x) * C06_PB(C06_ALPHA) + g_c] == g_pv, "channel c of pixel (x,y) reproduced");
   }
   VERIF_REACH();
 }
